@@ -173,6 +173,13 @@ def check_pus(case):
     eq(devs, "clean.trailer", raw[-2:], crc_bytes(raw[:-2]), "trailer vs reference CRC of all preceding octets")
     dec[0][1](raw)  # uncorrupted packet must be accepted (an exception here is reported by the engine)
     true(devs, "clean.check_pus_crc", check_pus_crc(raw) is True, "standalone CRC check rejects an uncorrupted packet")
+    # decoded out of a longer receive buffer and re-emitted unchanged with the documented recalc_crc=False: still a packet that passes
+    longer = raw + b"\x18\x01\xc0\x00"
+    dl = dec[0][1](longer)
+    eq(devs, "decoded_from_longer_buffer.crc16", bytes(dl.crc16), raw[-2:])
+    re_emitted = bytes(dl.pack(recalc_crc=False))
+    eq(devs, "decoded_from_longer_buffer.repack_without_recalc", re_emitted, raw)
+    true(devs, "decoded_from_longer_buffer.check_pus_crc", check_pus_crc(re_emitted) is True, "re-emitted packet fails the standalone check")
     # "whatever fields were set or changed before packing": objects that already carry a trailer (packed before / decoded) are
     # changed through their public header objects or through a caller-owned mutable data buffer, then packed with default arguments
     for tag in ("packed", "decoded"):
